@@ -218,7 +218,7 @@ func run(c *hlib.Ctx) *hlib.Run {
 		tr("world: %d documents, threshold %v, %d instances, shuffle_maps=%v", len(world), threshold, len(insts), cfg.ShuffleMaps)
 
 		// ---- inputs --------------------------------------------------------
-		pool := &v2kit.Pool{Scenarios: scs, Docs: world}
+		pool := &v2kit.Pool{Scenarios: scs, Docs: world, Threshold: threshold}
 		nin := 1 + s.Draw(4, "n-inputs")
 		inputs := make([]v2kit.Input, nin)
 		for i := range inputs {
@@ -244,6 +244,11 @@ func run(c *hlib.Ctx) *hlib.Run {
 		}
 
 		// ---- history -------------------------------------------------------
+		type retainedOut struct {
+			live, copy []byte
+			from       string
+		}
+		var retained []retainedOut
 		cur := 0
 		traceOn := "off"
 		nops := 5 + s.Draw(36, "n-ops")
@@ -305,7 +310,9 @@ func run(c *hlib.Ctx) *hlib.Run {
 					data = []byte(v2kit.OOV(s, 5+s.Draw(40, "normalize-oov")) + " extraordinary novel vocabulary " + fmt.Sprint(op))
 				}
 				before := append([]byte(nil), data...)
-				_ = insts[cur].c.Normalize(data)
+				nres := insts[cur].c.Normalize(data)
+				// the caller keeps what Normalize returned: later calls must not change it
+				retained = append(retained, retainedOut{nres, append([]byte(nil), nres...), fmt.Sprintf("op %d Normalize(%dB)@%s", op, len(data), insts[cur].name)})
 				out.Counters["op_Normalize"]++
 				hist = append(hist, fmt.Sprintf("Normalize(%dB)@%s", len(data), insts[cur].name))
 				tr("op %d: Normalize(%d bytes) on %s", op, len(data), insts[cur].name)
@@ -352,6 +359,12 @@ func run(c *hlib.Ctx) *hlib.Run {
 				tr("op %d: switch to instance %s", op, insts[cur].name)
 			}
 		}
+		for _, r := range retained {
+			if viol == nil && !bytes.Equal(r.live, r.copy) {
+				viol = &hlib.Violation{Oracle: "caller-buffer-unchanged", Class: "normalize-result-modified-later", Message: "the byte slice returned by " + r.from + " was modified by a later call (history: " + strings.Join(hist, "; ") + ")"}
+			}
+		}
+		out.Counters["retained_normalize_outputs_checked"] += int64(len(retained))
 		sample = map[string]any{"corpus_docs": len(world), "threshold": threshold, "instances": len(insts), "shuffle_maps": cfg.ShuffleMaps, "inputs": descs(inputs), "history": hist}
 	})
 	for _, p := range rep.Panics {
